@@ -15,9 +15,11 @@ from .c01 import where
 FLOOR_UNITS = 21
 
 
-def size_identity(prog, cd, rep, with_consumed=True):
+def size_identity(prog, cd, rep, with_consumed=True, only=None):
     n_units = 0
     for u in cd.units.values():
+        if only is not None and u.name not in only:
+            continue
         un = cd.unify(u)
         sc = SizeCtx(prog, un, cd)
         wb = apply_equiv(writer_bytes(sc, u), un.ctx)
